@@ -94,6 +94,94 @@ theorem C18_only_expiry_timers_left (s : State) (h : Shut s) :
   obtain ⟨x, _, rfl⟩ := ht
   exact ⟨_, _, rfl⟩
 
+/-- **C18 (shutdown at any moment, whole run).** Take any state that is not shut down — in
+particular the state after any history whatsoever — shut down at time `t`, and let *anything*
+follow (`es` is arbitrary: late datagrams, every timer that was pending, late handler
+responses, transport errors, new submissions, further shutdowns).  Over the whole rest of the
+run, shutdown step included: every request and observation that was outstanding gets
+`LibraryShutdown`, every request being served has its pipe stopped, not a single message is
+transmitted, and the context ends shut down with nothing pending.  This is `C18_all_fail`
+composed with `C18_silent_forever`; it is the statement the harness samples when it injects
+shutdown at every instant of the busy scenarios. -/
+theorem C18_shutdown_anywhere (s : State) (h : s.shutTok = false) (t : Nat) (es : List TEv) :
+    (∀ o ∈ s.outgoing, Out.fail o.req .libraryShutdown ∈ (run s (⟨t, .shutdown⟩ :: es)).2) ∧
+    (∀ i ∈ s.incoming, Out.stop i.srv ∈ (run s (⟨t, .shutdown⟩ :: es)).2) ∧
+    sendsOf (run s (⟨t, .shutdown⟩ :: es)).2 = [] ∧
+    Shut (run s (⟨t, .shutdown⟩ :: es)).1 := by
+  have h0 : (setNow s t).shutTok = false := h
+  obtain ⟨hf, hs, hq, hsh⟩ := C18_all_fail (setNow s t) h0
+  have hr := C18_silent_forever (shutdown (setNow s t)).1 hsh es
+  have hrun : run s (⟨t, .shutdown⟩ :: es) =
+      ((run (shutdown (setNow s t)).1 es).1,
+        (shutdown (setNow s t)).2 ++ (run (shutdown (setNow s t)).1 es).2) := rfl
+  rw [hrun]
+  refine ⟨fun o ho => List.mem_append_left _ (hf o ho),
+    fun i hi => List.mem_append_left _ (hs i hi), ?_, hr.1⟩
+  rw [sendsOf_append, hq, hr.2]; rfl
+
+/-- … and from the very beginning: whatever history `pre` the context went through before (from
+any state — the initial one included), if it has not been shut down by then, the same holds for
+the requests outstanding at that moment. -/
+theorem C18_shutdown_after_any_history (s0 : State) (pre : List TEv)
+    (h : (run s0 pre).1.shutTok = false) (t : Nat) (es : List TEv) :
+    (∀ o ∈ (run s0 pre).1.outgoing,
+        Out.fail o.req .libraryShutdown ∈ (run (run s0 pre).1 (⟨t, .shutdown⟩ :: es)).2) ∧
+    (∀ i ∈ (run s0 pre).1.incoming,
+        Out.stop i.srv ∈ (run (run s0 pre).1 (⟨t, .shutdown⟩ :: es)).2) ∧
+    sendsOf (run (run s0 pre).1 (⟨t, .shutdown⟩ :: es)).2 = [] ∧
+    Shut (run (run s0 pre).1 (⟨t, .shutdown⟩ :: es)).1 :=
+  C18_shutdown_anywhere _ h t es
+
+/-- **C18 (a second shutdown is a no-op).** `Context.shutdown()` called again on a context that
+is shut down changes nothing and reports nothing. -/
+theorem C18_shutdown_idempotent (s : State) (h : Shut s) : shutdown s = (s, []) := by
+  simp [shutdown, h.tok]
+
+theorem count_map_inj {α β : Type} [DecidableEq α] [DecidableEq β] (f : α → β)
+    (hf : ∀ a b, f a = f b → a = b) (a : α) (l : List α) : (l.map f).count (f a) = l.count a := by
+  induction l with
+  | nil => rfl
+  | cons x xs ih =>
+    simp only [List.map_cons, List.count_cons, ih]
+    by_cases hx : x = a
+    · simp [hx]
+    · have : ¬ f x = f a := fun e => hx (hf _ _ e)
+      simp [hx, this]
+
+theorem count_one_of_nodup {α : Type} [DecidableEq α] (a : α) (l : List α) (hn : l.Nodup)
+    (hm : a ∈ l) : l.count a = 1 := by
+  induction l with
+  | nil => cases hm
+  | cons x xs ih =>
+    obtain ⟨hx, hxs⟩ := List.nodup_cons.mp hn
+    by_cases e : x = a
+    · subst e
+      simp [List.count_cons, List.count_eq_zero.mpr hx]
+    · have hm' : a ∈ xs := by
+        cases hm with
+        | head => exact absurd rfl e
+        | tail _ h => exact h
+      simp [List.count_cons, e, ih hxs hm']
+
+/-- **C18 (each outstanding request fails exactly once in the shutdown step).** When the
+outstanding requests have distinct identities, shutdown reports `LibraryShutdown` for each of
+them once, not several times. -/
+theorem C18_fail_once (s : State) (h : s.shutTok = false)
+    (hn : (s.outgoing.map (·.req)).Nodup) (o : OutReq) (ho : o ∈ s.outgoing) :
+    (shutdown s).2.count (Out.fail o.req .libraryShutdown) = 1 := by
+  simp only [shutdown, h, Bool.false_eq_true, ↓reduceIte, List.count_append]
+  have h1 : (s.incoming.map (fun i => Out.stop i.srv)).count (Out.fail o.req .libraryShutdown) = 0 := by
+    apply List.count_eq_zero.mpr
+    intro hm
+    obtain ⟨i, _, hi⟩ := List.mem_map.mp hm
+    cases hi
+  have h2 : s.outgoing.map (fun x => Out.fail x.req .libraryShutdown) =
+      (s.outgoing.map (·.req)).map (fun r => Out.fail r .libraryShutdown) := by
+    simp [List.map_map, Function.comp_def]
+  rw [h1, h2, count_map_inj (fun r => Out.fail r ErrKind.libraryShutdown)
+    (by intro a b hab; cases hab; rfl), Nat.zero_add]
+  exact count_one_of_nodup _ _ hn (List.mem_map.mpr ⟨o, ho, rfl⟩)
+
 -- non-vacuity -------------------------------------------------------------------------------
 
 /-- a CON request arrives (empty-ACK timer armed), a request of our own is in flight; shutdown one
@@ -112,6 +200,14 @@ example : ((run (init c10Cfg 500 0 (fun _ => 20)) c18Run).2.map fun o =>
     | .response r _ _ => ("response", r, 0, 0)
     | .fail r k => ("fail", r, if k = .libraryShutdown then 1 else 0, 0)) =
     [("send", 3, 2, 500), ("deliver", 0, 1, 0), ("stop", 0, 0, 0), ("fail", 0, 1, 0), ("fail", 1, 1, 0)] := by
+  decide
+
+/-- the premises of `C18_shutdown_anywhere` / `C18_fail_once` are met by a busy state: after the
+first two events of `c18Run` a request is outstanding, a request is being served, nothing is shut -/
+example : (run (init c10Cfg 500 0 (fun _ => 20)) (c18Run.take 2)).1.shutTok = false ∧
+    ((run (init c10Cfg 500 0 (fun _ => 20)) (c18Run.take 2)).1.outgoing.map (·.req)).Nodup ∧
+    (run (init c10Cfg 500 0 (fun _ => 20)) (c18Run.take 2)).1.outgoing.length = 1 ∧
+    (run (init c10Cfg 500 0 (fun _ => 20)) (c18Run.take 2)).1.incoming.length = 1 := by
   decide
 
 end Aiocoap.MsgLayer
